@@ -28,4 +28,19 @@ CLAIMS = {
                 'one UTF-8 decode is covered by C11 CONTGUARD.',
         'technique': 'CFG dominance / reachability path rule over template instantiations + def-use of the consumed count',
     },
+    'C07': {
+        'text': 'Decides, for all operand values, that the handler bound at opcode_table[n] for each in-scope opcode (0x00-0x18, '
+                '0x30-0x32, 0x3E-0x41) has exactly the effect the opcode spec gives it: the AST of each handler is normalised into '
+                'net stack movement + a bit-vector expression per written cell (explicit widths, explicitly signed operators, '
+                'sign/zero extension of operand bytes) and compared structurally with a spec table keyed by opcode NUMBER; plus '
+                'three-way agreement number/enum/table-name/handler, decoder stack model vs handler needs, operand-size table vs '
+                'bytes claimed, stack excursion within the guard cells, division and signed-overflow guards, and construct-by-'
+                'construct agreement of the direct- and call-threaded drivers (every handler region, register initialisation by '
+                'field name, register types, ENDOP test, epilogues).  NOT decided: equality of returned values on concrete '
+                'programs and identical shaping output of the two builds (runtime) -- the structural agreement is their necessary condition.',
+        'note': 'Trusted: clang 14 front end and constant folder, tools/grfacts, rules/vmsym.py (normaliser), rules/opspec.py (spec written '
+                'from doc/OpCodes.adoc; rows 3E/3F follow the on-disk numbering, the document has them swapped).  A handler body '
+                'outside the normaliser\'s statement forms is exit 2.',
+        'technique': 'AST/CFG normal-form comparison against a spec table (custom clang plugin facts) + sibling cross-check of the two VM drivers',
+    },
 }
